@@ -1,4 +1,5 @@
 import Wx.Job.C04Sim
+import Wx.Job.FaultsThm
 /-! # C04 — A job never has two live processes at once
 
 > At every moment a job has at most one child process that has been spawned and not yet reaped; a new process is
@@ -35,5 +36,33 @@ theorem ids_unique (cfg : Fixes) (behs : List Beh) (ops : List Op) :
 
 /-- non-vacuity: a reachable state in which a child is live -/
 example : ((runOps (initial {} [.ignores]) [.send .normal [.start] true, .settle]).map (fun x => x.st.live)) = [[0]] := by decide
+
+/-- **… and when calls on the child fail**: `Jf` (Wx/Job/Faults.lean) is the task with failing `kill()`, `signal()` and
+    `wait()` calls (a fault script says which calls of which child fail). For every fault script, every history and every
+    race resolution: at most one live child, and it is the one the task holds — a failed kill or wait never lets the task
+    spawn a second process next to one it has not collected -/
+theorem at_most_one_live_under_faults (cfg : Fixes) (behs : List Beh) (faults : List Jf.Fault) (ops : List Op) :
+    ∀ z ∈ Jf.runOpsF (Jf.initialF cfg behs faults) ops,
+      z.x.st.live.length ≤ 1 ∧ (∀ c, z.x.st.cs = .running c → z.x.st.live = [c]) ∧ ((∀ c, z.x.st.cs ≠ .running c) → z.x.st.live = []) := by
+  intro z hz
+  have h := (Jf.c04_faults cfg behs faults ops z hz).1
+  refine ⟨?_, ?_, ?_⟩
+  · rw [h]; cases z.x.st.cs <;> simp
+  · intro c hc; rw [h, hc]
+  · intro hn; rw [h]; cases hcs : z.x.st.cs with
+    | running c => exact absurd hcs (hn c)
+    | pending => rfl
+    | finished s => rfl
+
+/-- without faults the fault-aware task IS the model every other theorem is about: same runs, same states -/
+theorem fault_free_is_the_verified_model (cfg : Fixes) (behs : List Beh) (ops : List Op) :
+    (Jf.runOpsF (Jf.initialF cfg behs []) ops).map (·.x) = runOps (initial cfg behs) ops := by
+  rw [Jf.runOpsF_noFaults ops rfl, List.map_map]
+  exact List.map_id _
+
+/-- non-vacuity: a kill that fails leaves the child live and running; the stop's ticket has resolved all the same -/
+example : ((Jf.runOpsF (Jf.initialF Fixes.all [.ignores] [{ kill := true }])
+      [.send .normal [.start] true, .settle, .send .normal [.stop] true, .settle]).map
+        (fun z => (z.x.st.live, z.x.st.log.any (fun e => e.2 == .killFail 0), z.x.st.waiters.all (·.resolved)))) = [([0], true, true)] := by decide
 
 end Props.C04
